@@ -254,7 +254,10 @@ pub fn check_fill(case: &FillCase) -> Outcome {
                 );
                 return out;
             }
-            if which == "verbatim-only" {
+            if which == "verbatim-only" && len == 0 {
+                // encoding an empty buffer is an invalid-argument case (property C17), not judged here
+                out.class("empty-fill:encode-not-judged(C17)");
+            } else if which == "verbatim-only" {
                 if let Ok(fbytes) = &a {
                     // the frame is a dump of the buffer: decode and compare sample by sample
                     let mut viol = vec![];
@@ -271,11 +274,9 @@ pub fn check_fill(case: &FillCase) -> Outcome {
                             return out;
                         }
                     }
-                } else if len > 0 {
+                } else {
                     out.viol("frame-encode-failed-on-valid-buffer", format!("step {step} (len {len}): {a:?}"));
                     return out;
-                } else {
-                    out.class("empty-fill:encode-refused-equally");
                 }
             }
         }
